@@ -25,6 +25,10 @@ func tarTree(root string) ([]byte, error) {
 }
 
 func runC05(c *fw.Case) {
+	if desyncBin() != "" && c.Chance(1, 60, "c05.proc") {
+		runC05Proc(c)
+		return
+	}
 	sha256mode := c.Chance(1, 4, "sha256")
 	if sha256mode {
 		desync.Digest = desync.SHA256{}
